@@ -52,6 +52,9 @@ def run(ctx):
     for i in range(40 if quick else 400):
         p_, s_, t_ = gen.gen_ambig_candidate(random.Random(rng.getrandbits(48)))
         progs.append(("amb%d" % i, s_, []))
+    # big regex automata (deep recursion in the regex code) next to the small programs
+    progs.append(("bigregex0", 'parser { /x{400}/; "y"; }', []))
+    progs.append(("bigregex1", 'out str[8] s; parser { s += /[a-f]{150}(ab|cd)*/; ";"; }', []))
     jobs = [{"name": n, "src": s, "flags": [rng.choice(["-O1", "-O3"])] + [f for f in fl if not f.startswith("-O")]} for n, s, fl in progs]
     # (a) reference: each program alone in a fresh process would cost ~0.4 s each; a fresh process per GROUP of 1 is used for a
     #     sample, the others are compiled in a fresh process in their own order
@@ -71,6 +74,7 @@ def run(ctx):
     with ThreadPoolExecutor(max_workers=4) as ex:
         cfg_res = list(ex.map(cfg_run, configs))
     shared = {"prims": {}, "tests": {}}
+    leaked = set()
     per_prog = collections.defaultdict(list)     # index -> [(config, verdict, machine)]
     for i, (res, e) in single_res.items():
         if res is None:
@@ -84,6 +88,12 @@ def run(ctx):
             continue
         for i, r in zip(order, res):
             per_prog[i].append((name, r["verdict"], export.remap_ids(r["machine"], r["prims"], r["tests"], shared) if r["machine"] else None, r["message"]))
+            if r.get("interp_changed") and ("interp", i) not in leaked:
+                # a compilation that leaves interpreter-wide settings changed makes every later compilation in the process depend on it
+                leaked.add(("interp", i))
+                ctx.violation("interpreter-state:%s:%s" % (jobs[i]["name"].rstrip("0123456789"), "+".join(sorted(r["interp_changed"]))),
+                              "compiling this program leaves interpreter-wide state changed (%s): what later compilations in the same process do then depends on it" % json.dumps(r["interp_changed"])[:200],
+                              {"program": jobs[i]["src"], "flags": jobs[i]["flags"], "history": name, "changed": r["interp_changed"]})
     tasks, meta = [], []
     nverd = 0
     for i, lst in per_prog.items():
